@@ -2,18 +2,30 @@ import Gallia.Lib.Bytes
 /-
   C10 — service scan (`ServicesScanner`) and identifier scan (`ScanIdentifiers`).
 
-  The scanners talk to the ECU only through complete client exchanges (`ECU.send_raw`, `set_session`,
-  `read_session`, `ecu_reset`, `ping`); an exchange is modelled by its outcome class as the scanner sees it:
+  Two layers.
+
+  **Exchange layer.**  The scanners talk to the ECU only through complete client exchanges (`ECU.send_raw`,
+  `set_session`, `read_session`, `ecu_reset`, `ping`); an exchange is modelled by its outcome as the scanner sees it:
 
     pos pdu   a positive response (the PDU is kept because `read_session` decodes it)
     neg c     a negative response with code `c`
     timeout   `MissingResponse` (a `TimeoutError`) after the client's retries
     illegal   `MalformedResponse` / `RequestResponseMismatch` (an `IllegalResponse`)
+    stuck     `RuntimeError('ECU appears to be stuck in ResponsePending loop')`
 
   The model follows the code (`commands/scan/uds/services.py`, `identifiers.py`, `ECU.check_and_set_session`,
-  `ECU.set_session`, `ECU.leave_session`), loops as structural recursion, exceptions that the scanner does not
-  catch as the result `raised`.  Configuration domain: `--reset` not given, no database, no power supply,
-  session ids and identifiers within the ranges the request constructors accept.
+  `ECU.set_session` with its `set_session_pre` / `set_session_post` hooks, `ECU.leave_session`, `ECU.wait_for_ecu`,
+  the `--reset` path of the service scan), loops as structural recursion, exceptions that the scanner does not catch
+  as the result `raised`; the ECU state is threaded through every function and survives a `raised` result, so the
+  requests of a run that dies are part of what is modelled.
+
+  **Wire layer** (end of the file).  `UDSClient.request_unsafe` over an ECU that answers every single transmission with
+  a number of ResponsePending frames followed by a final message: the retry loop (`max_retry`, busyRepeatRequest), the
+  ResponsePending loop (`MAX_N_PENDING`), as the function `clientEcu` that turns a wire-level ECU into an
+  exchange-level one.
+
+  Configuration domain: no database, no power supply, session ids / reset levels below 0x80, identifiers within 16 bit,
+  session lists without repetition.
 -/
 namespace Gallia.Scans
 open Gallia
@@ -23,11 +35,19 @@ inductive Ans
   | neg (code : Nat)
   | timeout
   | illegal
+  | stuck
 deriving DecidableEq, Repr
 
 def Ans.isPos : Ans → Bool
   | .pos _ => true
   | _ => false
+
+/-- the exception an exchange ends with when the call site does not handle it -/
+def Ans.exn : Ans → Option String
+  | .timeout => some "MissingResponse"
+  | .illegal => some "IllegalResponse"
+  | .stuck => some "RuntimeError"
+  | _ => none
 
 /-- an ECU as the scanner sees it: one exchange = one step -/
 structure Ecu (σ : Type) where
@@ -37,7 +57,9 @@ structure Ecu (σ : Type) where
 def SNS : Nat := 0x11        -- serviceNotSupported
 def SFNS : Nat := 0x12       -- subFunctionNotSupported
 def IMLOIF : Nat := 0x13     -- incorrectMessageLengthOrInvalidFormat
+def BRR : Nat := 0x21        -- busyRepeatRequest
 def ROOR : Nat := 0x31       -- requestOutOfRange
+def RCRRP : Nat := 0x78      -- requestCorrectlyReceivedResponsePending
 def SFNSIAS : Nat := 0x7E    -- subFunctionNotSupportedInActiveSession
 def SNSIAS : Nat := 0x7F     -- serviceNotSupportedInActiveSession
 
@@ -82,44 +104,94 @@ variable {σ : Type}
 
 def dscPdu (s : Nat) : Bytes := [0x10, b s]
 def readSessionPdu : Bytes := [0x22, 0xF1, 0x86]
+def resetPdu (level : Nat) : Bytes := [0x11, b level]
+def pingPdu : Bytes := [0x3E, 0x00]
+
+/-- `ECU.set_session_pre` / `ECU.set_session_post` of an OEM subclass: the requests the hook sends for a session
+    level (`send_raw`, reply ignored, client exceptions propagate).  The base class sends nothing. -/
+structure Hooks where
+  pre : Nat → List Bytes := fun _ => []
+  post : Nat → List Bytes := fun _ => []
+
+/-- one hook: its requests in order; an exchange that ends in an exception ends the hook with that exception -/
+def runHook (e : Ecu σ) : List Bytes → σ → σ × R Unit
+  | [], s => (s, .ok ())
+  | p :: ps, s =>
+    match (e.step s p).2.exn with
+    | some w => ((e.step s p).1, .raised w)
+    | none => runHook e ps (e.step s p).1
+
+/-- `ECU.set_session(level)` without database: pre hook, `10 level`, post hook after a positive reply;
+    returns the (positive or negative) reply -/
+def setSession (e : Ecu σ) (h : Hooks) (level : Nat) (s : σ) : σ × R Ans :=
+  match runHook e (h.pre level) s with
+  | (s0, .raised w) => (s0, .raised w)
+  | (s0, .ok ()) =>
+    match e.step s0 (dscPdu level) with
+    | (s1, .pos p) =>
+      match runHook e (h.post level) s1 with
+      | (s2, .raised w) => (s2, .raised w)
+      | (s2, .ok ()) => (s2, .ok (.pos p))
+    | (s1, .neg c) => (s1, .ok (.neg c))
+    | (s1, .timeout) => (s1, .raised "MissingResponse")
+    | (s1, .illegal) => (s1, .raised "IllegalResponse")
+    | (s1, .stuck) => (s1, .raised "RuntimeError")
 
 inductive SessRead
   | is (s : Nat)         -- positive reply, decoded session
   | skipCheck            -- negative "identifier not supported"-like reply or timeout: the check is skipped
-  | raise (why : String) -- other negative reply or illegal response: exception propagates
+  | raise (why : String) -- other negative reply, illegal response, pending loop: exception propagates
 deriving Repr
 
 /-- `ECU.read_session` as used by `check_and_set_session` (with its exception handling) -/
 def readSession (e : Ecu σ) (s : σ) : σ × SessRead :=
-  let (s', a) := e.step s readSessionPdu
-  match a with
-  | .pos pdu => (s', .is (fromBE (pdu.drop 3)))
-  | .neg c => (s', if identifierNotSupportedCodes.contains c then .skipCheck else .raise "UnexpectedNegativeResponse")
-  | .timeout => (s', .skipCheck)
-  | .illegal => (s', .raise "IllegalResponse")
+  match e.step s readSessionPdu with
+  | (s', .pos pdu) => (s', .is (fromBE (pdu.drop 3)))
+  | (s', .neg c) => (s', if identifierNotSupportedCodes.contains c then .skipCheck else .raise "UnexpectedNegativeResponse")
+  | (s', .timeout) => (s', .skipCheck)
+  | (s', .illegal) => (s', .raise "IllegalResponse")
+  | (s', .stuck) => (s', .raise "RuntimeError")
 
-/-- the retry loop of `check_and_set_session`: set the session, read it back -/
-def checkRetry (e : Ecu σ) (expected : Nat) : Nat → σ → σ × R Bool
+/-- the retry loop of `check_and_set_session`: set the session (a negative reply is only logged), read it back -/
+def checkRetry (e : Ecu σ) (h : Hooks) (expected : Nat) : Nat → σ → σ × R Bool
   | 0, s => (s, .ok false)
   | n+1, s =>
-    let (s1, a) := e.step s (dscPdu expected)
-    match a with
-    | .timeout => (s1, .raised "MissingResponse")
-    | .illegal => (s1, .raised "IllegalResponse")
-    | _ =>
-      let (s2, r) := readSession e s1
-      match r with
-      | .is cur => if cur = expected then (s2, .ok true) else checkRetry e expected n s2
-      | .skipCheck => (s2, .ok true)
-      | .raise w => (s2, .raised w)
+    match setSession e h expected s with
+    | (s1, .raised w) => (s1, .raised w)
+    | (s1, .ok _) =>
+      match readSession e s1 with
+      | (s2, .is cur) => if cur = expected then (s2, .ok true) else checkRetry e h expected n s2
+      | (s2, .skipCheck) => (s2, .ok true)
+      | (s2, .raise w) => (s2, .raised w)
 
 /-- `ECU.check_and_set_session(expected, retries)` -/
-def checkAndSetSession (e : Ecu σ) (expected retries : Nat) (s : σ) : σ × R Bool :=
-  let (s1, r) := readSession e s
-  match r with
-  | .is cur => if cur = expected then (s1, .ok true) else checkRetry e expected (retries + 1) s1
-  | .skipCheck => (s1, .ok true)
-  | .raise w => (s1, .raised w)
+def checkAndSetSession (e : Ecu σ) (h : Hooks) (expected retries : Nat) (s : σ) : σ × R Bool :=
+  match readSession e s with
+  | (s1, .is cur) => if cur = expected then (s1, .ok true) else checkRetry e h expected (retries + 1) s1
+  | (s1, .skipCheck) => (s1, .ok true)
+  | (s1, .raise w) => (s1, .raised w)
+
+/-- `wait_for_ecu(timeout=10)`: `_wait_for_ecu_endless_loop(0.5)` under `asyncio.wait_for`.  Time is counted in half
+    seconds: every round sleeps 0.5 s, then pings with a 0.5 s timeout and `max_retry=0`; a positive or negative reply
+    ends the wait, an illegal reply costs no time, silence costs the 0.5 s.  When the budget runs out during the sleep
+    or during the read, `wait_for` cancels the loop (`False`, which the callers ignore).  A ping that is answered with
+    120 ResponsePending frames raises `RuntimeError`, which is not a `UDSException` and leaves `wait_for_ecu`. -/
+def waitForEcu (e : Ecu σ) : Nat → σ → σ × R Bool
+  | 0, s => (s, .ok false)
+  | 1, s => (s, .ok false)
+  | n+2, s =>
+    match e.step s pingPdu with
+    | (s', .pos _) => (s', .ok true)
+    | (s', .neg _) => (s', .ok true)
+    | (s', .illegal) => waitForEcu e (n+1) s'
+    | (s', .timeout) => waitForEcu e n s'
+    | (s', .stuck) => (s', .raised "RuntimeError")
+
+/-- the 10 s of `wait_for_ecu` in half seconds -/
+def waitBudget : Nat := 20
+
+/-- `retries` of `check_and_set_session` as both scanners call it (default of the method / `retries=3`) -/
+def checkRetries : Nat := 3
 
 /-! ### service scan -/
 
@@ -128,87 +200,118 @@ structure SvcCfg where
   checkSession : Bool
   scanResponseIds : Bool
   skip : Skip
+  reset : Option Nat := none
+  hooks : Hooks := {}
 
 /-- the inner `for length_payload in [1, 2, 3, 5]` loop for one service id:
-    (what is recorded for the sid, clean flag, state afterwards) -/
-def probeLens (e : Ecu σ) (sid : Nat) : List Nat → σ → Option Ans × Bool × σ
-  | [], s => (none, true, s)
+    (what is recorded for the sid, clean flag); `RuntimeError` is not caught -/
+def probeLens (e : Ecu σ) (sid : Nat) : List Nat → σ → σ × R (Option Ans × Bool)
+  | [], s => (s, .ok (none, true))
   | l :: ls, s =>
-    let (s', a) := e.step s (probePdu sid l)
-    match a with
-    | .timeout => probeLens e sid ls s'
-    | .illegal => let (r, _, s'') := probeLens e sid ls s'; (r, false, s'')
-    | .neg c =>
-      if serviceNotSupportedCodes.contains c then (none, true, s')
+    match e.step s (probePdu sid l) with
+    | (s', .timeout) => probeLens e sid ls s'
+    | (s', .illegal) =>
+      match probeLens e sid ls s' with
+      | (s'', .ok (r, _)) => (s'', .ok (r, false))
+      | (s'', .raised w) => (s'', .raised w)
+    | (s', .stuck) => (s', .raised "RuntimeError")
+    | (s', .neg c) =>
+      if serviceNotSupportedCodes.contains c then (s', .ok (none, true))
       else if c = IMLOIF then probeLens e sid ls s'
-      else (some a, true, s')
-    | .pos _ => (some a, true, s')
+      else (s', .ok (some (.neg c), true))
+    | (s', .pos p) => (s', .ok (some (.pos p), true))
 
 /-- is `sid` probed at all in `session` under this configuration? -/
 def sidSelected (cfg : SvcCfg) (session : Option Nat) (sid : Nat) : Bool :=
   !(sid &&& 0x40 != 0 && !cfg.scanResponseIds) && !skipped cfg.skip session sid
 
-structure ScanOut (σ : Type) where
+structure ScanOut where
   found : List (Nat × Ans)   -- (sid, recorded response), ascending sid
   clean : Bool
-  state : σ
+  abortedAt : Option Nat     -- the service id at which a failed session check ended the scan of the session
+deriving Repr
+
+/-- `if session is not None and self.config.check_session: await self.ecu.check_and_set_session(session)` -/
+def sessionCheck (e : Ecu σ) (cfg : SvcCfg) (session : Option Nat) (s : σ) : σ × R Bool :=
+  match session with
+  | some sess => if cfg.checkSession then checkAndSetSession e cfg.hooks sess checkRetries s else (s, .ok true)
+  | none => (s, .ok true)
 
 /-- `perform_scan(session)` over the given service ids (the code iterates 0x00..0xFF) -/
-def performScanFrom (e : Ecu σ) (cfg : SvcCfg) (session : Option Nat) : List Nat → σ → R (ScanOut σ)
-  | [], s => .ok ⟨[], true, s⟩
+def performScanFrom (e : Ecu σ) (cfg : SvcCfg) (session : Option Nat) : List Nat → σ → σ × R ScanOut
+  | [], s => (s, .ok ⟨[], true, none⟩)
   | sid :: rest, s =>
     if !sidSelected cfg session sid then performScanFrom e cfg session rest s
     else
-      let pre : σ × R Bool :=
-        match session with
-        | some sess => if cfg.checkSession then checkAndSetSession e sess 3 s else (s, .ok true)
-        | none => (s, .ok true)
-      match pre with
-      | (s0, .raised w) => let _ := s0; .raised w
-      | (s0, .ok false) => .ok ⟨[], false, s0⟩      -- abort the scan of this session
+      match sessionCheck e cfg session s with
+      | (s0, .raised w) => (s0, .raised w)
+      | (s0, .ok false) => (s0, .ok ⟨[], false, some sid⟩)      -- abort the scan of this session
       | (s0, .ok true) =>
-        let (r, c, s1) := probeLens e sid probeLengths s0
-        match performScanFrom e cfg session rest s1 with
-        | .raised w => .raised w
-        | .ok out =>
-          .ok ⟨(match r with | some a => [(sid, a)] | none => []) ++ out.found, c && out.clean, out.state⟩
+        match probeLens e sid probeLengths s0 with
+        | (s1, .raised w) => (s1, .raised w)
+        | (s1, .ok (r, c)) =>
+          match performScanFrom e cfg session rest s1 with
+          | (s2, .raised w) => (s2, .raised w)
+          | (s2, .ok out) =>
+            (s2, .ok ⟨(match r with | some a => [(sid, a)] | none => []) ++ out.found, c && out.clean, out.abortedAt⟩)
 
 def allSids : List Nat := List.range 256
 
-def performScan (e : Ecu σ) (cfg : SvcCfg) (session : Option Nat) (s : σ) : R (ScanOut σ) :=
+def performScan (e : Ecu σ) (cfg : SvcCfg) (session : Option Nat) (s : σ) : σ × R ScanOut :=
   performScanFrom e cfg session allSids s
 
-structure SvcResult (σ : Type) where
+/-- the `--reset` block of `ServicesScanner.main`: `ecu_reset(level)`; negative reply: continue; positive reply:
+    `wait_for_ecu()`; `TimeoutError`: `reconnect()` (nothing on the wire); other exceptions are not caught -/
+def resetAfter (e : Ecu σ) (level : Option Nat) (s : σ) : σ × R Unit :=
+  match level with
+  | none => (s, .ok ())
+  | some l =>
+    match e.step s (resetPdu l) with
+    | (s1, .neg _) => (s1, .ok ())
+    | (s1, .timeout) => (s1, .ok ())
+    | (s1, .illegal) => (s1, .raised "IllegalResponse")
+    | (s1, .stuck) => (s1, .raised "RuntimeError")
+    | (s1, .pos _) =>
+      match waitForEcu e waitBudget s1 with
+      | (s2, .raised w) => (s2, .raised w)
+      | (s2, .ok _) => (s2, .ok ())
+
+structure SvcResult where
   result : List (Nat × Nat)   -- `self.result`: (session key, sid)
   clean : Bool                -- exit status 0 iff clean
-  state : σ
+  aborted : List (Nat × Nat)  -- (session, service id) of every failed session check
+deriving Repr
 
 /-- the `for session in sessions` loop of `ServicesScanner.main` -/
-def svcSessions (e : Ecu σ) (cfg : SvcCfg) : List Nat → σ → R (SvcResult σ)
-  | [], s => .ok ⟨[], true, s⟩
+def svcSessions (e : Ecu σ) (cfg : SvcCfg) : List Nat → σ → σ × R SvcResult
+  | [], s => (s, .ok ⟨[], true, []⟩)
   | sess :: rest, s =>
-    let (s1, a) := e.step s (dscPdu sess)
-    match a with
-    | .pos _ =>
+    match setSession e cfg.hooks sess s with
+    | (s1, .ok (.pos _)) =>
       match performScan e cfg (some sess) s1 with
-      | .raised w => .raised w
-      | .ok out =>
-        match svcSessions e cfg rest out.state with
-        | .raised w => .raised w
-        | .ok r => .ok ⟨out.found.map (fun p => (sess, p.1)) ++ r.result, out.clean && r.clean, r.state⟩
-    | _ =>
-      -- negative reply, MissingResponse or IllegalResponse: session skipped, run marked unclean
+      | (s2, .raised w) => (s2, .raised w)
+      | (s2, .ok out) =>
+        match resetAfter e cfg.reset s2 with
+        | (s3, .raised w) => (s3, .raised w)
+        | (s3, .ok ()) =>
+          match svcSessions e cfg rest s3 with
+          | (s4, .raised w) => (s4, .raised w)
+          | (s4, .ok r) =>
+            (s4, .ok ⟨out.found.map (fun p => (sess, p.1)) ++ r.result, out.clean && r.clean,
+                      (match out.abortedAt with | some sid => [(sess, sid)] | none => []) ++ r.aborted⟩)
+    | (s1, _) =>
+      -- negative reply, or `UDSException` / `RuntimeError` out of `set_session`: session skipped, run marked unclean
       match svcSessions e cfg rest s1 with
-      | .raised w => .raised w
-      | .ok r => .ok ⟨r.result, false, r.state⟩
+      | (s4, .raised w) => (s4, .raised w)
+      | (s4, .ok r) => (s4, .ok ⟨r.result, false, r.aborted⟩)
 
 /-- `ServicesScanner.main` -/
-def serviceScan (e : Ecu σ) (cfg : SvcCfg) (s : σ) : R (SvcResult σ) :=
+def serviceScan (e : Ecu σ) (cfg : SvcCfg) (s : σ) : σ × R SvcResult :=
   match cfg.sessions with
   | none =>
     match performScan e cfg none s with
-    | .raised w => .raised w
-    | .ok out => .ok ⟨out.found.map (fun p => (0, p.1)), out.clean, out.state⟩
+    | (s1, .raised w) => (s1, .raised w)
+    | (s1, .ok out) => (s1, .ok ⟨out.found.map (fun p => (0, p.1)), out.clean, []⟩)
   | some sessions => svcSessions e cfg (activeSessions cfg.skip sessions) s
 
 /-! ### identifier scan -/
@@ -222,6 +325,7 @@ structure IdCfg where
   checkSession : Option Nat   -- every n-th identifier
   skip : Skip
   skipNotSupported : Bool
+  hooks : Hooks := {}
 
 def routineSubFuncs : List Nat := [1, 2, 3]
 
@@ -247,121 +351,167 @@ structure IdCount where
   timeouts : Nat := 0
 deriving DecidableEq, Repr
 
-structure IdOut (σ : Type) where
+structure IdOut where
   counts : IdCount
   completed : Bool    -- `perform_scan` returned True
-  state : σ
+deriving Repr
 
 def IdCount.addPos (c : IdCount) : IdCount := { c with positive := c.positive + 1 }
 def IdCount.addAbn (c : IdCount) : IdCount := { c with abnormal := c.abnormal + 1 }
 def IdCount.addTo (c : IdCount) : IdCount := { c with timeouts := c.timeouts + 1 }
 
+/-- the session check of the identifier scan: every `n`-th identifier -/
+def idSessionCheck (e : Ecu σ) (cfg : IdCfg) (session : Option Nat) (did : Nat) (s : σ) : σ × R Bool :=
+  match session, cfg.checkSession with
+  | some sess, some n => if n ≠ 0 ∧ did % n = 0 then checkAndSetSession e cfg.hooks sess checkRetries s else (s, .ok true)
+  | _, _ => (s, .ok true)
+
 /-- the main loop of `ScanIdentifiers.perform_scan` over the given (identifier, sub-function) pairs -/
-def idLoop (e : Ecu σ) (cfg : IdCfg) (session : Option Nat) : List (Nat × Nat) → IdCount → σ → R (IdOut σ)
-  | [], c, s => .ok ⟨c, true, s⟩
+def idLoop (e : Ecu σ) (cfg : IdCfg) (session : Option Nat) : List (Nat × Nat) → IdCount → σ → σ × R IdOut
+  | [], c, s => (s, .ok ⟨c, true⟩)
   | (did, sf) :: rest, c, s =>
     if skipped cfg.skip session did then idLoop e cfg session rest c s
     else
-      let pre : σ × R Bool :=
-        match session, cfg.checkSession with
-        | some sess, some n => if n ≠ 0 ∧ did % n = 0 then checkAndSetSession e sess 3 s else (s, .ok true)
-        | _, _ => (s, .ok true)
-      match pre with
-      | (_, .raised w) => .raised w
-      | (s0, .ok false) => .ok ⟨c, false, s0⟩
+      match idSessionCheck e cfg session did s with
+      | (s0, .raised w) => (s0, .raised w)
+      | (s0, .ok false) => (s0, .ok ⟨c, false⟩)
       | (s0, .ok true) =>
-        let (s1, a) := e.step s0 (idPdu cfg did sf)
-        match a with
-        | .timeout => idLoop e cfg session rest c.addTo s1
-        | .illegal => idLoop e cfg session rest c s1
-        | .pos _ => idLoop e cfg session rest c.addPos s1
-        | .neg code =>
+        match e.step s0 (idPdu cfg did sf) with
+        | (s1, .timeout) => idLoop e cfg session rest c.addTo s1
+        | (s1, .illegal) => idLoop e cfg session rest c s1
+        | (s1, .stuck) => (s1, .raised "RuntimeError")
+        | (s1, .pos _) => idLoop e cfg session rest c.addPos s1
+        | (s1, .neg code) =>
           if serviceNotSupportedCodes.contains code then
-            if cfg.skipNotSupported then .ok ⟨c, true, s1⟩ else idLoop e cfg session rest c s1
+            if cfg.skipNotSupported then (s1, .ok ⟨c, true⟩) else idLoop e cfg session rest c s1
           else if code = ROOR ∨ code = SFNS then idLoop e cfg session rest c s1
           else idLoop e cfg session rest c.addAbn s1
 
-def idPerformScan (e : Ecu σ) (cfg : IdCfg) (session : Option Nat) (s : σ) : R (IdOut σ) :=
+def idPerformScan (e : Ecu σ) (cfg : IdCfg) (session : Option Nat) (s : σ) : σ × R IdOut :=
   idLoop e cfg session (idPairs cfg) {} s
 
-/-- `_wait_for_ecu_endless_loop` bounded by the 10 s timeout: a ping every second of virtual time
-    (0.5 s sleep + 0.5 s ping timeout), at most `fuel` pings; a positive or negative reply ends the wait -/
-def waitForEcu (e : Ecu σ) : Nat → σ → σ
-  | 0, s => s
-  | n+1, s =>
-    let (s', a) := e.step s [0x3E, 0x00]
-    match a with
-    | .pos _ | .neg _ => s'
-    | _ => waitForEcu e n s'
-
-def waitFuel : Nat := 10
-
 /-- `ECU.leave_session` without power supply: reset, wait, back to the default session -/
-def leaveSession (e : Ecu σ) (s : σ) : σ × R Unit :=
-  let (s1, a) := e.step s [0x11, 0x01]
-  match a with
-  | .timeout => (s1, .raised "MissingResponse")
-  | .illegal => (s1, .raised "IllegalResponse")
-  | _ =>
-    let s2 := waitForEcu e waitFuel s1
-    let (s3, a3) := e.step s2 (dscPdu 1)
-    match a3 with
-    | .timeout => (s3, .raised "MissingResponse")
-    | .illegal => (s3, .raised "IllegalResponse")
-    | _ => (s3, .ok ())
+def leaveSession (e : Ecu σ) (h : Hooks) (s : σ) : σ × R Unit :=
+  match e.step s (resetPdu 1) with
+  | (s1, .timeout) => (s1, .raised "MissingResponse")
+  | (s1, .illegal) => (s1, .raised "IllegalResponse")
+  | (s1, .stuck) => (s1, .raised "RuntimeError")
+  | (s1, _) =>
+    match waitForEcu e waitBudget s1 with
+    | (s2, .raised w) => (s2, .raised w)
+    | (s2, .ok _) =>
+      match setSession e h 1 s2 with
+      | (s3, .raised w) => (s3, .raised w)
+      | (s3, .ok _) => (s3, .ok ())
 
-structure IdResult (σ : Type) where
+structure IdResult where
   perSession : List (Nat × IdCount)   -- (session key, counters) for every session whose scan completed (the counters are logged)
   clean : Bool
-  state : σ
+deriving Repr
 
 /-- the `for session in sessions` loop of `ScanIdentifiers.main`.  Note the short circuit in
     `clean_returns = clean_returns and await self.perform_scan(session)`: once a session scan was aborted,
     later sessions are entered and left but no longer scanned. -/
-def idSessions (e : Ecu σ) (cfg : IdCfg) : List Nat → Bool → σ → R (IdResult σ)
-  | [], clean, s => .ok ⟨[], clean, s⟩
+def idSessions (e : Ecu σ) (cfg : IdCfg) : List Nat → Bool → σ → σ × R IdResult
+  | [], clean, s => (s, .ok ⟨[], clean⟩)
   | sess :: rest, clean, s =>
-    let (s1, a) := e.step s (dscPdu sess)
-    match a with
-    | .timeout => .raised "MissingResponse"
-    | .illegal => .raised "IllegalResponse"
-    | .neg _ => idSessions e cfg rest clean s1
-    | .pos _ =>
-      let scanned : R (Option IdCount × Bool × σ) :=
+    match setSession e cfg.hooks sess s with
+    | (s1, .raised w) => (s1, .raised w)
+    | (s1, .ok (.pos _)) =>
+      let scanned : σ × R (Option IdCount × Bool) :=
         if clean then
           match idPerformScan e cfg (some sess) s1 with
-          | .raised w => .raised w
-          | .ok out => .ok (if out.completed then some out.counts else none, out.completed, out.state)
-        else .ok (none, false, s1)
+          | (s2, .raised w) => (s2, .raised w)
+          | (s2, .ok out) => (s2, .ok (if out.completed then some out.counts else none, out.completed))
+        else (s1, .ok (none, false))
       match scanned with
-      | .raised w => .raised w
-      | .ok (cnt, clean', s2) =>
-        match leaveSession e s2 with
-        | (_, .raised w) => .raised w
+      | (s2, .raised w) => (s2, .raised w)
+      | (s2, .ok (cnt, clean')) =>
+        match leaveSession e cfg.hooks s2 with
+        | (s3, .raised w) => (s3, .raised w)
         | (s3, .ok ()) =>
           match idSessions e cfg rest clean' s3 with
-          | .raised w => .raised w
-          | .ok r => .ok ⟨(match cnt with | some c => [(sess, c)] | none => []) ++ r.perSession, r.clean, r.state⟩
+          | (s4, .raised w) => (s4, .raised w)
+          | (s4, .ok r) => (s4, .ok ⟨(match cnt with | some c => [(sess, c)] | none => []) ++ r.perSession, r.clean⟩)
+    | (s1, .ok _) => idSessions e cfg rest clean s1
 
 /-- `ScanIdentifiers.main` -/
-def identScan (e : Ecu σ) (cfg : IdCfg) (s : σ) : R (IdResult σ) :=
+def identScan (e : Ecu σ) (cfg : IdCfg) (s : σ) : σ × R IdResult :=
   match cfg.sessions with
   | none =>
     match idPerformScan e cfg none s with
-    | .raised w => .raised w
-    | .ok out => .ok ⟨[(0, out.counts)], out.completed, out.state⟩
+    | (s1, .raised w) => (s1, .raised w)
+    | (s1, .ok out) => (s1, .ok ⟨[(0, out.counts)], out.completed⟩)
   | some sessions => idSessions e cfg (activeSessions cfg.skip sessions) true s
 
-/-! ### scripted ECU used by the driver: answers are taken from a list in order, requests are logged -/
+/-! ### wire layer: `UDSClient.request_unsafe` -/
+
+/-- the final message of one transmission as the client classifies it -/
+inductive WMsg
+  | pos (pdu : Bytes)
+  | neg (code : Nat)      -- any code but ResponsePending
+  | silent                -- nothing (more) arrives
+  | garbage               -- a reply that `parse_pdu` refuses
+deriving DecidableEq, Repr
+
+/-- what the ECU sends in answer to one transmission of a request: `pendings` ResponsePending frames, then `final` -/
+structure WAns where
+  pendings : Nat
+  final : WMsg
+deriving DecidableEq, Repr
+
+/-- an ECU on the wire: one transmission = one step -/
+structure WireEcu (σ : Type) where
+  wstep : σ → Bytes → σ × WAns
+
+/-- `MAX_N_PENDING` -/
+def maxPending : Nat := 120
+
+/-- the `for i in range(max_retry + 1)` loop of `request_unsafe`, `n` transmissions left:
+    * `MAX_N_PENDING` ResponsePending frames in a row: `RuntimeError`;
+    * silence (directly, or after ResponsePending frames): next transmission, `MissingResponse` after the last;
+    * busyRepeatRequest as the first message: next transmission, returned after the last; after ResponsePending frames
+      it is returned like any other negative response;
+    * a reply that does not parse raises immediately. -/
+def exchangeLoop (w : WireEcu σ) (pdu : Bytes) : Nat → σ → σ × Ans
+  | 0, s => (s, .timeout)
+  | n+1, s =>
+    if maxPending ≤ (w.wstep s pdu).2.pendings then ((w.wstep s pdu).1, .stuck)
+    else
+      match (w.wstep s pdu).2.final with
+      | .pos p => ((w.wstep s pdu).1, .pos p)
+      | .garbage => ((w.wstep s pdu).1, .illegal)
+      | .silent => if n = 0 then ((w.wstep s pdu).1, .timeout) else exchangeLoop w pdu n (w.wstep s pdu).1
+      | .neg c =>
+        if c = BRR ∧ (w.wstep s pdu).2.pendings = 0 ∧ n ≠ 0 then exchangeLoop w pdu n (w.wstep s pdu).1
+        else ((w.wstep s pdu).1, .neg c)
+
+/-- the exchange-level ECU that the real client makes out of a wire-level one; `retry pdu` is the `max_retry` in
+    force for the call site that sends `pdu` -/
+def clientEcu (w : WireEcu σ) (retry : Bytes → Nat) : Ecu σ where
+  step s pdu := exchangeLoop w pdu (retry pdu + 1) s
+
+/-- `max_retry` per call site of the service scan (`self.ecu.max_retry = 0`; `read_session` asks for 3) -/
+def svcRetry (pdu : Bytes) : Nat := if pdu = readSessionPdu then 3 else 0
+
+/-- `max_retry` per call site of the identifier scan: probes and `read_session` ask for 3, the ping of `wait_for_ecu`
+    for 0, session changes, the reset and hook requests use the client's default -/
+def idRetry (dflt : Nat) (dfltPdus : List Bytes) (pdu : Bytes) : Nat :=
+  if pdu = pingPdu then 0
+  else if pdu.length = 2 ∧ (pdu.head? = some 0x10 ∨ pdu = resetPdu 1) then dflt
+  else if dfltPdus.contains pdu then dflt
+  else 3
+
+/-! ### scripted wire ECU used by the driver: answers are taken from a list in order, transmissions are logged -/
 
 structure Scripted where
-  answers : List Ans
-  log : List Bytes := []   -- requests seen, newest first
+  answers : List WAns
+  log : List Bytes := []   -- transmissions seen, newest first
 
-def scriptedEcu : Ecu Scripted where
-  step s pdu :=
+def scriptedEcu : WireEcu Scripted where
+  wstep s pdu :=
     match s.answers with
-    | [] => ({ s with log := pdu :: s.log }, .timeout)
+    | [] => ({ s with log := pdu :: s.log }, ⟨0, .silent⟩)
     | a :: rest => ({ answers := rest, log := pdu :: s.log }, a)
 
 end Gallia.Scans
